@@ -9,7 +9,7 @@ import (
 
 func init() {
 	register("C17", propMeta{
-		Explanation: "Decides, on every path of the BSC client update (CheckHeaderAndUpdateState -> checkValidity -> verifyHeader -> verifyCascadingFields -> verifySeal, each success reachable only through the next one): basic validation (vanity and seal length, zero mix digest, uncle hash, non-zero difficulty); validators in the extra data exactly on epoch blocks and in multiples of 20 bytes; the header is the direct child of the client's latest header (number = latest+1 and parent hash = hash of the latest header); gas limit cap, gasUsed <= gasLimit, gas-limit change below parent/256 and at least the minimum; seal: signer recovered from the header with the client's chain id, signer == coinbase, signer is a member of the snapshot built from the client's current validators, recency refusal for a signer seen after number-(N/2+1), difficulty 2 exactly when in turn and 1 exactly when not, where 'in turn' is validators-sorted[(latest number+1) mod N] == signer; update: the pending set is written at epoch blocks from the header's extra data, it replaces the validator set exactly when number mod Epoch == len(current validators)/2, after acceptance the latest header is the header and the consensus state is {header time, height, root}; checkValidity's success dominates update. NOT decided: the 'if' direction (every valid header is accepted), signer pruning arithmetic when the set shrinks, histories with set changes.",
+		Explanation: "Decides, on every path of the BSC client update (CheckHeaderAndUpdateState -> checkValidity -> verifyHeader -> verifyCascadingFields -> verifySeal, each success reachable only through the next one): basic validation (vanity and seal length, zero mix digest, uncle hash, non-zero difficulty); validators in the extra data exactly on epoch blocks and in multiples of 20 bytes; the header is the direct child of the client's latest header (number = latest+1 and parent hash = hash of the latest header); gas limit cap, gasUsed <= gasLimit, gas-limit change below parent/256 and at least the minimum; seal: signer recovered from the header with the client's chain id, signer == coinbase, signer is a member of the snapshot built from the client's current validators, recency refusal for a signer seen after number-(N/2+1), difficulty 2 exactly when in turn and 1 exactly when not, where 'in turn' is validators-sorted[(latest number+1) mod N] == signer; update: the pending set is written at epoch blocks from the header's extra data, it replaces the validator set exactly when number mod Epoch == len(current validators)/2, after acceptance the latest header is the header and the consensus state is {header time, height, root}; checkValidity's success dominates update; ClientKeeper.UpdateClient stores the returned client and consensus state on every accepting path; along the calls from ecrecover to the RLP encoder the header that is hashed for the seal signature is the submitted header itself (not a normalised copy). NOT decided: the 'if' direction (every valid header is accepted), signer pruning arithmetic when the set shrinks, histories with set changes.",
 		Assumptions: []string{"go-ethereum crypto.Ecrecover and RLP hashing are correct"},
 		Trusted:     commonTrusted,
 	}, ruleC17)
